@@ -10,7 +10,7 @@ META = {
     'technique': 'CFG must-pass-through / dominance rules on update_file (both hash comparisons before replace_file, '
                  'non-empty patch list), who-may-call rule for writers of the local file, replace protocol shape, '
                  'exit classification (fall-back or integrity error), definite-assignment and unguarded-unpack audit, '
-                 'import-provider resolution for the hash constructors, path rule for malformed index entries; the roles of the locals (content, hash functions, patch table) are inferred from the calls; handler-coverage rule for decode errors of the local copy and the index; byte-faithful-stream rule (binary, or text with the encoding of the hash functions and no newline translation)',
+                 'import-provider resolution for the hash constructors, path rule for malformed index entries; the roles of the locals (content, hash functions, patch table) are inferred from the calls; handler-coverage rule for decode errors of the local copy and the index; byte-faithful-stream rule (binary, or text with the encoding of the hash functions and no newline translation); update_file interpreted (sa.heap) on 84 index scenarios with streams, downloads, hashes and patch application as a model in which contents are named by their hashes (history with a recurring content, one malformed entry at every position, missing fields); format-arity rule for the messages of refusals',
     'level_text': 'Static path rules over every path of update_file/replace_file/download_*: the local file is written only by '
                   'replace_file, which update_file reaches only after the patch-hash and result-hash comparisons; every other exit '
                   'is the up-to-date return, a full download or an integrity error; temporaries are removed in finally; no local is '
@@ -825,8 +825,8 @@ def r7_history_order(rep, src, g=None):
               and (is_local_hash(n.left) or is_local_hash(n.comparators[0])) and remote not in (norm(n.left), norm(n.comparators[0]))]
     if starts:
         rep.ok('C19.R7', f.site, 'chain starts at the local version', norm(starts[0]), nontrivial=False)
-    else:
-        rep.fail('C19.R7', f.site, 'chain starts at the local version', 'no comparison of a history hash with the local hash', where=f.where)
+    # (no such comparison in the function body itself -- it may sit in a lambda or a helper: where the chain starts is decided by the
+    # interpreted scenarios of r10_index_scenarios, local copy at every version of a history in which a content recurs)
 
 
 def r8_malformed_entries(rep, src):
@@ -842,7 +842,9 @@ def r8_malformed_entries(rep, src):
     loops = [n for n in ast.walk(fnode) if isinstance(n, ast.For) and isinstance(n.iter, ast.Call) and isinstance(n.iter.func, ast.Attribute)
              and n.iter.func.attr == 'splitlines']
     if not loops:
-        raise AnalysisError('%s: no loop over the lines of an index field' % f.site)
+        # the entries are not read in a loop over <field>.splitlines() (a comprehension, a helper that was not fused ...): this
+        # shape-based reading does not apply; the clause is decided by the interpreted scenarios (r10_index_scenarios, C19.R8)
+        return 0
     n = 0
     for lp in loops:
         ps = paths.Enumerator(paths.Folder()).run(lp.body, [paths.Path()])
@@ -873,6 +875,134 @@ def r8_malformed_entries(rep, src):
         else:
             rep.ok('C19.R8', f.site, what, 'wrong column count → full download')
     return n
+
+
+def _interpret_update(src, index, local_hash, prefix):
+    """update_file interpreted (sa.heap) on one index (paragraphs of (field, value) pairs) and one local content, with the streams,
+    the downloads, the hash functions and the patch application replaced by a model: contents are named by their hashes, applying
+    the patch the history lists for the current content gives the next content of the history, anything else gives garbage.
+    -> (outcome, log): outcome ('return', value) / ('raise', name); log of urlopen / patch download / apply / full download / replace"""
+    from .. import heap as H
+    mod = src.mod(MODN)
+    f = src.func(SITE)
+    log = []
+    state = {'hash': local_hash}
+    hist, cur = [], None
+    for para in index:
+        for fld, val in para:
+            if fld == prefix + '-History':
+                for e in val.split('\n'):
+                    cols = e.split()
+                    if len(cols) == 3:
+                        hist.append((cols[0], cols[2]))
+            if fld == prefix + '-Current' and val.split():
+                cur = val.split()[0]
+
+    def h_hash(kind):
+        def hk(it, args, kw):
+            x = args[0]
+            if isinstance(x, H.Ref) and x.name == '@locallines':
+                return state['hash'] if kind == prefix else 'other:' + state['hash']
+            if isinstance(x, H.Ref) and it.h.is_list(x):
+                items = it.h.items(x)
+                if items and isinstance(items[0], str) and items[0].startswith('patch:'):
+                    return ('ph:' if kind == prefix else 'oph:') + items[0][6:]
+            raise AnalysisError('C19 scenario: hash of %r' % (x,))
+        return hk
+
+    def h_dl_patch(it, args, kw):
+        url = args[0].concrete() if hasattr(args[0], 'concrete') else args[0]
+        if not isinstance(url, str) or '.diff/' not in url or not url.endswith('.gz'):
+            raise AnalysisError('C19 scenario: patch URL %r' % (url,))
+        log.append(('patch', url.split('.diff/')[1][:-3]))
+        return it.h.new_list(['patch:' + url.split('.diff/')[1][:-3]])
+
+    def h_patch_lines(it, args, kw):
+        name = args[1][1] if isinstance(args[1], tuple) else None
+        idx = [i for i, (hh, n) in enumerate(hist) if n == name and hh == state['hash']]
+        state['hash'] = (hist[idx[0] + 1][0] if idx[0] + 1 < len(hist) else cur) if idx else 'garbage'
+        log.append(('apply', name))
+        return None
+    hooks = {'open': lambda it, a, k: it.h.alloc('Stream', {}), '.readlines': lambda it, a, k: it.h.new_list(['line\n'], '@locallines'),
+             'urlopen': lambda it, a, k: (log.append(('urlopen', a[0])), it.h.alloc('Stream', {}))[1],
+             'PackageFile': lambda it, a, k: it.h.new_list([it.h.new_list([(x, y) for x, y in para]) for para in index]),
+             'read_lines_sha256': h_hash('SHA256'), 'read_lines_sha1': h_hash('SHA1'), 'download_gunzip_lines': h_dl_patch,
+             'patches_from_ed_script': lambda it, a, k: ('edscript', it.h.items(a[0])[0][6:]), 'patch_lines': h_patch_lines,
+             'download_file': lambda it, a, k: (log.append(('full',)), 'FULL')[1],
+             'replace_file': lambda it, a, k: log.append(('replace', state['hash'])), 'print': lambda it, a, k: None}
+    heap = H.Heap(mod, hooks=hooks)
+    heap.native_regex = True
+    it = H.Interp(heap)
+    try:
+        r = it.call(H.Closure(f.node, {}, None, None), ['REMOTE', 'LOCAL'])
+        return ('return', 'LINES' if isinstance(r, H.Ref) and r.name == '@locallines' else r), log
+    except H.Raised as x:
+        return ('raise', x.exc), log
+
+
+def r10_index_scenarios(rep, src):
+    """the interpretation of the index, decided on scenarios instead of on the shape of its loops: a history in which a content
+    recurs (h0 h1 h0 -> current), the local copy at every version / current / unknown; the same with one entry of History, Patches
+    or Current malformed (a column missing or added) at every position, a field missing, a needed patch not listed.  With the
+    contents modelled by their hashes the outcome is decided exactly: the update ends at the current content through a chain of
+    consecutive history entries that starts at an entry of the local content, or with the full download -- never with an error,
+    a gap, or another content.  (reported as C19.R7 for well-formed indexes, C19.R8 for malformed ones)"""
+    f = src.func(SITE)
+    rep.saw_func(f)
+    for prefix in ('SHA256', 'SHA1'):
+        H_ = [('h0', 'P0'), ('h1', 'P1'), ('h0', 'P2'), ('h3', 'P3')]
+        names = [n for _, n in H_]
+
+        def index(hist_lines=None, patch_lines=None, current='hC 99', drop=()):
+            hl = hist_lines if hist_lines is not None else ['%s 10 %s' % e for e in H_]
+            pl = patch_lines if patch_lines is not None else ['ph:%s 5 %s' % (n, n) for n in names]
+            fields = [(prefix + '-Current', current), (prefix + '-History', '\n ' + '\n '.join(hl)), (prefix + '-Patches', '\n ' + '\n '.join(pl))]
+            return [[fv for fv in fields if fv[0].split('-')[1] not in drop]]
+
+        def judge(rule, what, idx, local, must_patch):
+            out, log = _interpret_update(src, idx, local, prefix)
+            applied = [e[1] for e in log if e[0] == 'apply']
+            fetched = [e[1] for e in log if e[0] == 'patch']
+            repl = [e for e in log if e[0] == 'replace']
+            full = [e for e in log if e[0] == 'full']
+            starts = [j for j, (hh, _) in enumerate(H_) if hh == local]
+            good_chain = any(applied == names[j:] for j in starts) and applied and fetched == applied and repl == [('replace', 'hC')] and not full and out == ('return', 'LINES')
+            good_full = out == ('return', 'FULL') and not repl and not applied
+            up_to_date = local == 'hC' and out == ('return', 'LINES') and not log[1:]
+            if up_to_date or good_chain or (good_full and not must_patch):
+                rep.ok(rule, f.site, what, 'up to date' if up_to_date else 'patches %s' % ' '.join(applied) if good_chain else 'full download')
+            else:
+                got = 'raises %s' % out[1] if out[0] == 'raise' else 'returns %r' % (out[1],)
+                rep.fail(rule, f.site, what, '%s after %s%s; expected %s' % (
+                    got, ', '.join('%s %s' % (e[0], e[1]) if len(e) > 1 else e[0] for e in log[1:]) or 'nothing',
+                    ' (the content written is %s, not the current one)' % repl[0][1] if repl and repl[0][1] != 'hC' else '',
+                    'the patches from an entry of the local content to the end of the history, then the file replaced by the current content' if must_patch
+                    else 'that, or the full download (the index is unusable)'), where=f.where)
+        for local in ('h0', 'h1', 'h3', 'hC', 'hX'):
+            judge('C19.R7', '[%s] history h0 h1 h0 h3 -> current, local copy at %s' % (prefix, local), index(), local, local in ('h0', 'h1', 'h3'))
+        # blank lines between the entries are not entries
+        judge('C19.R7', '[%s] history with an empty line between the entries, local copy at h1' % prefix,
+              [[(prefix + '-Current', 'hC 99'), (prefix + '-History', '\n h0 10 P0\n\n h1 10 P1\n h0 10 P2\n h3 10 P3\n'),
+                (prefix + '-Patches', '\n ph:P0 5 P0\n ph:P1 5 P1\n\n ph:P2 5 P2\n ph:P3 5 P3')]], 'h1', True)
+        # the three fields in three paragraphs
+        three = index()
+        judge('C19.R7', '[%s] the fields of the index in separate paragraphs, local copy at h1' % prefix, [[fv] for fv in three[0]], 'h1', True)
+        for pos in range(len(H_)):
+            for form, label in ((lambda e: '%s %s' % e, 'a column missing'), (lambda e: '%s 10 extra %s' % e, 'a column added')):
+                hl = ['%s 10 %s' % e for e in H_]
+                hl[pos] = form(H_[pos])
+                for local in ('h0', 'h1'):
+                    judge('C19.R8', '[%s] History entry %d with %s, local copy at %s' % (prefix, pos, label, local), index(hist_lines=hl), local, False)
+                pl = ['ph:%s 5 %s' % (n, n) for n in names]
+                pl[pos] = 'ph:%s %s' % (names[pos], names[pos]) if label == 'a column missing' else 'ph:%s 5 x %s' % (names[pos], names[pos])
+                judge('C19.R8', '[%s] Patches entry %d with %s, local copy at h0' % (prefix, pos, label), index(patch_lines=pl), 'h0', False)
+            pl = ['ph:%s 5 %s' % (n, n) for k_, n in enumerate(names) if k_ != pos]
+            judge('C19.R8', '[%s] patch %s of the history not listed under Patches, local copy at h0' % (prefix, names[pos]), index(patch_lines=pl), 'h0', False)
+        for cur_, label in (('hC', 'one column'), ('hC 99 x', 'three columns'), ('', 'no text')):
+            judge('C19.R8', '[%s] Current with %s, local copy at h1' % (prefix, label), index(current=cur_), 'h1', False)
+        for drop in ('Current', 'History', 'Patches'):
+            judge('C19.R8', '[%s] index without the %s field, local copy at h1' % (prefix, drop), index(drop=(drop,)), 'h1', False)
+        judge('C19.R8', '[%s] empty index, local copy at h1' % prefix, [], 'h1', False)
 
 
 def r9_faithful_io(rep, src):
@@ -954,8 +1084,8 @@ def check(src, rep, tier):
     rep.need('C19.R4', 12)
     rep.need('C19.R5', 2)
     rep.need('C19.R6', 1)
-    rep.need('C19.R7', 2)
-    rep.need('C19.R8', 2)
+    rep.need('C19.R7', 14)
+    rep.need('C19.R8', 60)
     g = rep.guard('C19.R1', r1_verify_before_replace, src)
     rep.guard('C19.R2', r2_single_writer, src)
     rep.guard('C19.R3', r3_replace_protocol, src)
@@ -967,3 +1097,6 @@ def check(src, rep, tier):
     rep.guard('C19.R6', r6_temp_download, src)
     rep.guard('C19.R7', r7_history_order, src, g)
     rep.guard('C19.R8', r8_malformed_entries, src)
+    rep.guard('C19.R7', r10_index_scenarios, src)
+    from . import common
+    rep.guard('C19.R4', common.check_error_construction, src, 'C19.R4', 'debian_support', ('update_file', 'download_file', 'download_gunzip_lines', 'replace_file'), 0)
